@@ -370,4 +370,726 @@ theorem scan_tok (g tc : Bool) (t : Tok) (R : List Char) (ht : tokOk t = true) (
       simp [scan1, h1, h2, h3, h4, h5, h6, hbr, hsl, hscan]
       exact hdotc'
 
+
+/-! ## no white space or comment starts at a token -/
+
+/-- a first character that starts no white space, line terminator or comment, whatever follows -/
+def plainStart (c : Char) : Bool :=
+  decide (c.toNat < 128) && c != ' ' && c != '\t' && c.toNat != 11 && c.toNat != 12 && c != '\n' && c != '\r'
+    && c != '/' && c != '<' && c != '-'
+
+theorem isTriviaStart_plain (nl : Bool) (c : Char) (r : List Char) (h : plainStart c = true) :
+    isTriviaStart nl (c :: r) = false := by
+  simp only [plainStart, Bool.and_eq_true, decide_eq_true_eq, bne_iff_ne, ne_eq] at h
+  obtain ⟨⟨⟨⟨⟨⟨⟨⟨⟨h0, h1⟩, h2⟩, h3⟩, h4⟩, h5⟩, h6⟩, h7⟩, h8⟩, h9⟩ := h
+  have hls : startsLS (c :: r) = false := startsLS_head c r (by simp; omega)
+  have hC2 : (c.toNat == 0xC2) = false := by simp; omega
+  have hEF : (c.toNat == 0xEF) = false := by simp; omega
+  simp only [isTriviaStart, isLT, hls, hC2, hEF]
+  simp [h1, h2, h3, h4, h5, h6, h7, h8, h9]
+
+def startC (nl : Bool) (t : Tok) (R : List Char) : Prop :=
+  match t with
+  | .p s => (s.toList = ['/'] → ∀ c, R.head? = some c → c ≠ '/' ∧ c ≠ '*')
+      ∧ (s.toList = ['<'] → R.take 3 ≠ ['!', '-', '-'])
+      ∧ (nl = true → (s.toList = ['-'] → R.take 2 ≠ ['-', '>']) ∧ (s.toList = ['-', '-'] → R.head? ≠ some '>'))
+  | _ => True
+
+def punctStartOk (p : List Char) : Bool :=
+  match p with
+  | [] => false
+  | c :: _ => plainStart c || p == ['/'] || p == ['/', '='] || p == ['<'] || p == ['<', '='] || p == ['<', '<']
+      || p == ['<', '<', '='] || p == ['-'] || p == ['-', '-'] || p == ['-', '=']
+
+theorem fragPuncts_start : ∀ p ∈ fragPuncts, punctStartOk p = true := by decide
+
+theorem fragKw_start : ∀ k ∈ fragKw, (match k.toList with | [] => false | c :: _ => plainStart c) = true := by decide
+
+theorem plainStart_of_idStart (c : Char) (h1 : isIdStart c = true) (h2 : c.toNat < 128) : plainStart c = true := by
+  rw [isIdStart_iff] at h1
+  simp only [plainStart, Bool.and_eq_true, decide_eq_true_eq, bne_iff_ne, ne_eq, char_eq_iff]
+  simp; omega
+
+theorem plainStart_of_digit (c : Char) (h1 : c.isDigit = true) : plainStart c = true := by
+  rw [isDigit_iff] at h1
+  simp only [plainStart, Bool.and_eq_true, decide_eq_true_eq, bne_iff_ne, ne_eq, char_eq_iff]
+  simp; omega
+
+theorem start_tok (nl : Bool) (t : Tok) (R : List Char) (ht : tokOk t = true) (h : startC nl t R) :
+    isTriviaStart nl (txt t ++ R) = false := by
+  cases t with
+  | ident s =>
+    simp only [tokOk, identOk, Bool.and_eq_true] at ht
+    simp only [txt, tokText]
+    cases hs : s.toList with
+    | nil => rw [hs] at ht; simp [nameOk] at ht
+    | cons c r =>
+      rw [hs] at ht
+      have h1 : isIdStart c = true := by have := ht.1.1.1; simp [nameOk] at this; exact this.1
+      have h2 : c.toNat < 128 := by have := ht.1.1.2; simp at this; exact this.1
+      exact isTriviaStart_plain nl c _ (plainStart_of_idStart c h1 h2)
+  | kw s =>
+    simp only [tokOk, List.contains_iff_mem] at ht
+    have := fragKw_start s ht
+    simp only [txt, tokText]
+    cases hs : s.toList with
+    | nil => rw [hs] at this; simp at this
+    | cons c r => rw [hs] at this; exact isTriviaStart_plain nl c _ this
+  | num n bd =>
+    rcases num_shape n bd with ⟨ds, hw, hd, hne, _⟩ | ⟨ds, hw, hd, hne, _⟩ | ⟨m, z, hw, hm, hmne, _, _, _⟩
+    · rw [hw]
+      cases ds with
+      | nil => exact absurd rfl hne
+      | cons c r => exact isTriviaStart_plain nl c _ (plainStart_of_digit c (hd c (by simp)))
+    · rw [hw]
+      cases ds with
+      | nil => exact absurd rfl hne
+      | cons c r => exact isTriviaStart_plain nl c _ (plainStart_of_digit c (hd c (by simp)))
+    · rw [hw]
+      cases m with
+      | nil => exact absurd rfl hmne
+      | cons c r => exact isTriviaStart_plain nl c _ (plainStart_of_digit c (hm c (by simp)))
+  | str s =>
+    simp only [txt, tokText, String.toList_append]
+    exact isTriviaStart_plain nl '"' _ (by decide)
+  | p s =>
+    simp only [tokOk, List.contains_iff_mem] at ht
+    have hst := fragPuncts_start _ ht
+    obtain ⟨hsl, hlt, hmi⟩ := h
+    simp only [txt, tokText]
+    cases hp : s.toList with
+    | nil => rw [hp] at hst; simp [punctStartOk] at hst
+    | cons c r =>
+      rw [hp] at hst hsl hlt hmi
+      simp only [punctStartOk, Bool.or_eq_true, beq_iff_eq] at hst
+      rcases hst with ((((((((hst | hst) | hst) | hst) | hst) | hst) | hst) | hst) | hst) | hst
+      · exact isTriviaStart_plain nl c _ hst
+      · -- "/"
+        have hc : c = '/' ∧ r = [] := by simpa using hst
+        obtain ⟨hc, hr⟩ := hc; subst hc; subst hr
+        cases R with
+        | nil => cases nl <;> decide
+        | cons d R' =>
+          have := hsl rfl d rfl
+          have hls : startsLS ('/' :: d :: R') = false := startsLS_head _ _ (by decide)
+          simp [isTriviaStart, isLT, hls, this.1, this.2]
+      · have hc : c = '/' ∧ r = ['='] := by simpa using hst
+        obtain ⟨hc, hr⟩ := hc; subst hc; subst hr
+        have hls : startsLS ('/' :: ('=' :: R)) = false := startsLS_head _ _ (by decide)
+        simp [isTriviaStart, isLT, hls]
+      · -- "<"
+        have hc : c = '<' ∧ r = [] := by simpa using hst
+        obtain ⟨hc, hr⟩ := hc; subst hc; subst hr
+        have := hlt rfl
+        have hls : startsLS ('<' :: R) = false := startsLS_head _ _ (by decide)
+        simp [isTriviaStart, isLT, hls, this]
+      · have hc : c = '<' ∧ r = ['='] := by simpa using hst
+        obtain ⟨hc, hr⟩ := hc; subst hc; subst hr
+        have hls : startsLS ('<' :: ('=' :: R)) = false := startsLS_head _ _ (by decide)
+        simp [isTriviaStart, isLT, hls]
+      · have hc : c = '<' ∧ r = ['<'] := by simpa using hst
+        obtain ⟨hc, hr⟩ := hc; subst hc; subst hr
+        have hls : startsLS ('<' :: ('<' :: R)) = false := startsLS_head _ _ (by decide)
+        simp [isTriviaStart, isLT, hls]
+      · have hc : c = '<' ∧ r = ['<', '='] := by simpa using hst
+        obtain ⟨hc, hr⟩ := hc; subst hc; subst hr
+        have hls : startsLS ('<' :: ('<' :: '=' :: R)) = false := startsLS_head _ _ (by decide)
+        simp [isTriviaStart, isLT, hls]
+      · -- "-"
+        have hc : c = '-' ∧ r = [] := by simpa using hst
+        obtain ⟨hc, hr⟩ := hc; subst hc; subst hr
+        have hls : startsLS ('-' :: R) = false := startsLS_head _ _ (by decide)
+        cases nl with
+        | false => simp [isTriviaStart, isLT, hls]
+        | true =>
+          have := (hmi rfl).1 rfl
+          simp [isTriviaStart, isLT, hls, this]
+      · -- "--"
+        have hc : c = '-' ∧ r = ['-'] := by simpa using hst
+        obtain ⟨hc, hr⟩ := hc; subst hc; subst hr
+        have hls : startsLS ('-' :: ('-' :: R)) = false := startsLS_head _ _ (by decide)
+        cases nl with
+        | false => simp [isTriviaStart, isLT, hls]
+        | true =>
+          have := (hmi rfl).2 rfl
+          cases R with
+          | nil => simp [isTriviaStart, isLT, hls]
+          | cons d R' =>
+            have hd : d ≠ '>' := by intro e; subst e; exact this rfl
+            simp [isTriviaStart, isLT, hls, hd]
+      · have hc : c = '-' ∧ r = ['='] := by simpa using hst
+        obtain ⟨hc, hr⟩ := hc; subst hc; subst hr
+        have hls : startsLS ('-' :: ('=' :: R)) = false := startsLS_head _ _ (by decide)
+        simp [isTriviaStart, isLT, hls]
+
+
+/-! ## which adjacent tokens the writer keeps apart -/
+
+def firstC (t : Tok) : Option Char := (txt t).head?
+
+def isInOf (t : Tok) : Bool := t == .kw "in" || t == .kw "instanceof"
+
+def startsIdPart (t : Tok) : Bool :=
+  match firstC t with
+  | some c => isIdPart c
+  | none => false
+
+/-- the last byte of the token is an identifier byte for the writer (`IsIdentifierEnd`) -/
+def lastIdent (t : Tok) : Bool :=
+  match (txt t).getLast? with
+  | some c => isIdentChar c
+  | none => false
+
+/-- `b` may directly follow `a` in a token stream handed to the writer: either the two texts do not run into each
+    other, or the writer's rules put a space between them (`typeof x`, `a in b`, `+ +`, `- --`, `/ /`).
+    Pairs excluded here never occur in the token stream of a program: two words (`a b`, `1 a`, `true x`), a plain
+    decimal integer directly before a dot, a punctuator followed by a character that extends it to another
+    punctuator (`<` `<`, `=` `=`, `&` `&`, `+` `=`), `/` before `*`, `.` before a digit. -/
+def adjOk (a b : Tok) : Bool :=
+  (match a with
+   | .str _ => true
+   | .p s =>
+     (match firstC b with
+      | none => true
+      | some c =>
+        (!(ext s.toList).contains c || ((s == "+" || s == "-" || s == "/") && s.toList.head? == some c))
+          && (s != "/" || c != '*') && (s.toList != ['.'] || !c.isDigit))
+   | .kw k => kwNeedsSpace k || !startsIdPart b || (isInOf b && lastIdent a)
+   | _ => !startsIdPart b || (isInOf b && lastIdent a))
+  && (!plainInt a || firstC b != some '.')
+
+def adjChain : List Tok → Bool
+  | [] => true
+  | [_] => true
+  | a :: b :: r => adjOk a b && adjChain (b :: r)
+
+/-- `-->` at the very beginning of a script is a comment: a leading prefix `--` is not followed by `>…` -/
+def headOk : List Tok → Bool
+  | .p "--" :: b :: _ => b == .p ">" || firstC b != some '>'
+  | _ => true
+
+theorem seps_spaces (w : W) (t : Tok) : allSpaces (seps w t) = true := by
+  unfold seps allSpaces
+  split <;> split <;> split <;> simp
+
+theorem seps_head (w : W) (t : Tok) (h : seps w t ≠ []) (rest : List Char) :
+    (seps w t ++ rest).head? = some ' ' := by
+  have hs := seps_spaces w t
+  cases hq : seps w t with
+  | nil => exact absurd hq h
+  | cons a r =>
+    rw [hq] at hs
+    simp [allSpaces] at hs
+    simp [hs.1]
+
+theorem seps_ne_of_pre1 (w : W) (t : Tok) (h : pre1 w t = true) : seps w t ≠ [] := by
+  unfold seps; simp [h]
+theorem seps_ne_of_pre2 (w : W) (t : Tok) (h : pre2 w t = true) : seps w t ≠ [] := by
+  unfold seps; simp [h]
+theorem seps_ne_of_spB (w : W) (t : Tok) (h : spB w t = true) : seps w t ≠ [] := by
+  unfold seps; simp [h]
+
+/-- the pending `spaceBefore` character never appears at the start of what is written next -/
+theorem render_head_ne (w : W) (ts : List Tok) (c : Char) (hw : w.spaceBefore = some c) (hc : c ≠ ' ')
+    (hne : ∀ t ∈ ts, txt t ≠ []) : (render w ts).head? ≠ some c := by
+  cases ts with
+  | nil => simp [render]
+  | cons t ts' =>
+    simp only [render]
+    by_cases hs : seps w t = []
+    · rw [hs, List.nil_append]
+      intro hh
+      have hp2 : pre2 w t = false := by
+        cases h : pre2 w t with
+        | false => rfl
+        | true => exact absurd hs (seps_ne_of_pre2 w t h)
+      have hd : (txt t).head? = some c := by
+        cases htx : txt t with
+        | nil => exact absurd htx (hne t (by simp))
+        | cons d r => rw [htx] at hh; simpa using hh
+      have : spB w t = true := by
+        unfold spB
+        simp [hp2, hw, hd]
+      exact absurd hs (seps_ne_of_spB w t this)
+    · rw [seps_head w t hs]
+      intro hh
+      exact hc (by simpa using hh.symm)
+
+
+/-! ## a space stops every token -/
+
+theorem ext_sub (p : List Char) (c : Char) (h : c ∈ ext p) : ∃ q ∈ puncts, c ∈ q := by
+  simp only [ext, List.mem_filterMap] at h
+  obtain ⟨q, hq, hc⟩ := h
+  refine ⟨q, hq, ?_⟩
+  split at hc
+  · exact List.mem_of_getElem? hc
+  · simp at hc
+
+theorem space_not_ext (p : List Char) : ' ' ∉ ext p := by
+  intro h
+  obtain ⟨q, hq, hc⟩ := ext_sub p ' ' h
+  have : ∀ q ∈ puncts, ' ' ∉ q := by decide
+  exact this q hq hc
+
+theorem stopC_space (t : Tok) (R : List Char) (h : R.head? = some ' ') : stopC t R := by
+  cases R with
+  | nil => simp at h
+  | cons d R' =>
+    simp only [List.head?_cons, Option.some.injEq] at h
+    subst h
+    cases t with
+    | ident s => intro c hc; simp at hc; subst hc; decide
+    | kw s => intro c hc; simp at hc; subst hc; decide
+    | num n bd =>
+      refine ⟨by simp [numStop, numEndOk]; decide, ?_⟩
+      intro _ c hc; simp at hc; subst hc; decide
+    | str s => trivial
+    | p s =>
+      intro c hc; simp at hc; subst hc
+      exact ⟨space_not_ext _, fun _ => by decide⟩
+
+theorem stopC_nil (t : Tok) : stopC t [] := by
+  cases t with
+  | ident s => intro c hc; simp at hc
+  | kw s => intro c hc; simp at hc
+  | num n bd => exact ⟨by decide, fun _ c hc => by simp at hc⟩
+  | str s => trivial
+  | p s => intro c hc; simp at hc
+
+/-! ## the first character of a valid token -/
+
+def punctNoId (p : List Char) : Bool :=
+  match p with
+  | [] => false
+  | c :: _ => !isIdPart c
+
+theorem fragPuncts_noId : ∀ p ∈ fragPuncts, punctNoId p = true := by decide
+
+theorem fragKw_firstIdent : ∀ k ∈ fragKw, (match k.toList with | [] => false | c :: _ => isIdentChar c) = true := by
+  decide
+
+theorem isIdentChar_of_idPart (c : Char) (h : isIdPart c = true) (hb : c ≠ '\\') : isIdentChar c = true := by
+  rw [isIdPart_iff] at h
+  rw [ne_eq, char_eq_iff] at hb
+  simp only [isIdentChar, Char.isAlphanum, Bool.or_eq_true, isAlpha_iff, isDigit_iff, beq_iff_eq, char_eq_iff,
+    decide_eq_true_eq, ge_iff_le]
+  simp at hb ⊢
+  omega
+
+theorem isIdentChar_digit (c : Char) (h : c.isDigit = true) : isIdentChar c = true := by
+  simp [isIdentChar, Char.isAlphanum, h]
+
+/-- the first character of a valid token is an identifier byte for the writer whenever it is one for the lexer -/
+theorem first_identChar (b : Tok) (hb : tokOk b = true) (c : Char) (hc : firstC b = some c)
+    (hi : isIdPart c = true) : isIdentChar c = true := by
+  cases b with
+  | ident s =>
+    simp only [tokOk, identOk, Bool.and_eq_true] at hb
+    simp only [firstC, txt, tokText] at hc
+    cases hs : s.toList with
+    | nil => rw [hs] at hc; simp at hc
+    | cons d r =>
+      rw [hs] at hc hb
+      simp at hc; subst hc
+      have := hb.1.1.1
+      simp [nameOk] at this
+      exact isIdentChar_of_idPart _ hi this.2.1.2
+  | kw s =>
+    simp only [tokOk, List.contains_iff_mem] at hb
+    have := fragKw_firstIdent s hb
+    simp only [firstC, txt, tokText] at hc
+    cases hs : s.toList with
+    | nil => rw [hs] at hc; simp at hc
+    | cons d r => rw [hs] at hc this; simp at hc; subst hc; exact this
+  | num n bd =>
+    simp only [firstC] at hc
+    rcases num_shape n bd with ⟨ds, hw, hd, hne, _⟩ | ⟨ds, hw, hd, hne, _⟩ | ⟨m, z, hw, hm, hmne, _, _, _⟩
+    · rw [hw] at hc
+      cases ds with
+      | nil => exact absurd rfl hne
+      | cons d r => simp at hc; subst hc; exact isIdentChar_digit _ (hd _ (by simp))
+    · rw [hw] at hc
+      cases ds with
+      | nil => exact absurd rfl hne
+      | cons d r => simp at hc; subst hc; exact isIdentChar_digit _ (hd _ (by simp))
+    · rw [hw] at hc
+      cases m with
+      | nil => exact absurd rfl hmne
+      | cons d r => simp at hc; subst hc; exact isIdentChar_digit _ (hm _ (by simp))
+  | str s =>
+    simp only [firstC, txt, tokText, String.toList_append] at hc
+    simp at hc
+    subst hc
+    exact absurd hi (by decide)
+  | p s =>
+    simp only [tokOk, List.contains_iff_mem] at hb
+    have := fragPuncts_noId _ hb
+    simp only [firstC, txt, tokText] at hc
+    cases hs : s.toList with
+    | nil => rw [hs] at hc; simp at hc
+    | cons d r =>
+      rw [hs] at hc this; simp at hc; subst hc
+      simp [punctNoId] at this
+      rw [this] at hi; exact absurd hi (by simp)
+
+
+/-! ## what follows a token in the rendered text -/
+
+theorem seps_nil (w : W) (t : Tok) (h : seps w t = []) : pre2 w t = false ∧ pre1 w t = false ∧ spB w t = false := by
+  refine ⟨?_, ?_, ?_⟩
+  · cases h2 : pre2 w t with
+    | false => rfl
+    | true => exact absurd h (seps_ne_of_pre2 w t h2)
+  · cases h2 : pre1 w t with
+    | false => rfl
+    | true => exact absurd h (seps_ne_of_pre1 w t h2)
+  · cases h2 : spB w t with
+    | false => rfl
+    | true => exact absurd h (seps_ne_of_spB w t h2)
+
+theorem pre1_inOf (w : W) (a b : Tok) (hb : isInOf b = true) (hl : lastIdent a = true) : pre1 (next w a) b = true := by
+  simp only [isInOf, Bool.or_eq_true, beq_iff_eq] at hb
+  simp only [lastIdent] at hl
+  rcases hb with hb | hb <;> subst hb <;> simp only [pre1, next] <;> simp <;> exact hl
+
+theorem spB_needs (w : W) (t : Tok) (c : Char) (h2 : pre2 w t = false) (hn : w.needsSpace = true)
+    (hc : (txt t).head? = some c) (hi : isIdentChar c = true) : spB w t = true := by
+  unfold spB
+  simp [h2, hn, hc, hi]
+
+theorem spB_before (w : W) (t : Tok) (c : Char) (h2 : pre2 w t = false) (hn : w.spaceBefore = some c)
+    (hc : (txt t).head? = some c) : spB w t = true := by
+  unfold spB
+  simp [h2, hn, hc]
+
+theorem idStart_of_not_idPart (c : Char) (h : isIdPart c = false) : isIdStart c = false ∧ c.isDigit = false := by
+  rw [isIdPart_false_iff] at h
+  rw [isIdStart_false_iff, isDigit_false_iff]
+  omega
+
+/-- the word rule: after a word or number, the next token starts with an identifier byte only if it is
+    `in` / `instanceof` behind an identifier byte — and then the writer puts a space -/
+theorem word_rule (w : W) (a b : Tok) (more : List Tok) (c : Char) (hc : firstC b = some c)
+    (hs : seps (next w a) b = []) (h : (!startsIdPart b || (isInOf b && lastIdent a)) = true) :
+    isIdPart c = false := by
+  obtain ⟨_, h1, _⟩ := seps_nil _ _ hs
+  simp only [Bool.or_eq_true, Bool.not_eq_true', Bool.and_eq_true] at h
+  rcases h with h | h
+  · simpa [startsIdPart, hc] using h
+  · rw [pre1_inOf w a b h.1 h.2] at h1; exact absurd h1 (by simp)
+
+theorem pair_stop (w : W) (a b : Tok) (more : List Tok) (ha : tokOk a = true) (hb : tokOk b = true)
+    (hadj : adjOk a b = true) : stopC a (render (next w a) (b :: more)) := by
+  by_cases hs : seps (next w a) b = []
+  · have hR : render (next w a) (b :: more) = txt b ++ render (next (next w a) b) more := by
+      simp [render, hs]
+    obtain ⟨h2, h1, hsp⟩ := seps_nil _ _ hs
+    cases htb : txt b with
+    | nil => exact absurd htb (txt_ne_nil b hb)
+    | cons c rb =>
+      have hc : firstC b = some c := by simp [firstC, htb]
+      have hhead : ∀ d, (render (next w a) (b :: more)).head? = some d → d = c := by
+        intro d hd; rw [hR, htb] at hd; simpa using hd.symm
+      simp only [adjOk, Bool.and_eq_true] at hadj
+      obtain ⟨hadj1, hadj2⟩ := hadj
+      cases a with
+      | ident s =>
+        intro d hd; rw [hhead d hd]
+        exact word_rule w _ b more c hc hs hadj1
+      | kw k =>
+        intro d hd; rw [hhead d hd]
+        simp only [Bool.or_eq_true] at hadj1
+        rcases hadj1 with (hk | hk) | hk
+        · cases hi : isIdPart c with
+          | false => rfl
+          | true =>
+            have := spB_needs (next w (.kw k)) b c h2 (by simpa [next] using hk) (by simpa [firstC] using hc)
+              (first_identChar b hb c hc hi)
+            rw [this] at hsp; exact absurd hsp (by simp)
+        · exact word_rule w _ b more c hc hs (by simp [hk])
+        · exact word_rule w _ b more c hc hs (by simp [hk])
+      | num n bd =>
+        have hi := word_rule w _ b more c hc hs hadj1
+        have hi2 := idStart_of_not_idPart c hi
+        refine ⟨?_, ?_⟩
+        · rw [hR, htb]; simp [numStop, numEndOk, hi2.1, hi2.2]
+        · intro hp d hd
+          rw [hhead d hd]
+          simp only [hp, Bool.not_true, Bool.false_or, bne_iff_ne, ne_eq, hc, Option.some.injEq] at hadj2
+          exact hadj2
+      | str s => trivial
+      | p s =>
+        intro d hd; rw [hhead d hd]
+        simp only [hc, Bool.and_eq_true, Bool.or_eq_true, Bool.not_eq_true', bne_iff_ne, ne_eq, beq_iff_eq] at hadj1
+        obtain ⟨⟨hx, _⟩, hdot⟩ := hadj1
+        refine ⟨?_, ?_⟩
+        · rcases hx with hx | hx
+          · simpa using hx
+          · obtain ⟨hs3, hhd⟩ := hx
+            have hsb : (next w (.p s)).spaceBefore = some c := by
+              rcases hs3 with (hs3 | hs3) | hs3 <;> subst hs3 <;> simp at hhd <;> subst hhd <;> rfl
+            have := spB_before (next w (.p s)) b c h2 hsb (by simpa [firstC] using hc)
+            rw [this] at hsp; exact absurd hsp (by simp)
+        · intro hdd
+          rcases hdot with hdot | hdot
+          · exact absurd hdd hdot
+          · exact hdot
+  · exact stopC_space a _ (by simp only [render]; exact seps_head _ _ hs _)
+
+
+/-! ## no comment opener is formed -/
+
+theorem startC_nil (nl : Bool) (a : Tok) : startC nl a [] := by
+  cases a with
+  | p s => exact ⟨fun _ c hc => by simp at hc, fun _ => by simp, fun _ => ⟨fun _ => by simp, fun _ => by simp⟩⟩
+  | _ => trivial
+
+theorem fragPuncts_bang : ∀ p ∈ fragPuncts, p.head? = some '!' → p = ['!'] ∨ p.take 2 = ['!', '='] := by decide
+
+theorem fragKw_noBang : ∀ k ∈ fragKw, k.toList.head? ≠ some '!' := by decide
+
+/-- a valid token starting with `!` is the operator `!` or starts with `!=` -/
+theorem first_bang (b : Tok) (hb : tokOk b = true) (h : firstC b = some '!') :
+    b = .p "!" ∨ (txt b).take 2 = ['!', '='] := by
+  cases b with
+  | ident s =>
+    simp only [tokOk, identOk, Bool.and_eq_true] at hb
+    simp only [firstC, txt, tokText] at h
+    cases hs : s.toList with
+    | nil => rw [hs] at h; simp at h
+    | cons d r =>
+      rw [hs] at h hb; simp at h; subst h
+      have := hb.1.1.1; simp [nameOk] at this
+      exact absurd this.1 (by decide)
+  | kw s =>
+    simp only [tokOk, List.contains_iff_mem] at hb
+    exact absurd h (fragKw_noBang s hb)
+  | num n bd =>
+    simp only [firstC] at h
+    rcases num_shape n bd with ⟨ds, hw, hd, hne, _⟩ | ⟨ds, hw, hd, hne, _⟩ | ⟨m, z, hw, hm, hmne, _, _, _⟩
+    · rw [hw] at h
+      cases ds with
+      | nil => exact absurd rfl hne
+      | cons d r => simp at h; subst h; exact absurd (hd '!' (by simp)) (by decide)
+    · rw [hw] at h
+      cases ds with
+      | nil => exact absurd rfl hne
+      | cons d r => simp at h; subst h; exact absurd (hd '!' (by simp)) (by decide)
+    · rw [hw] at h
+      cases m with
+      | nil => exact absurd rfl hmne
+      | cons d r => simp at h; subst h; exact absurd (hm '!' (by simp)) (by decide)
+  | str s =>
+    simp only [firstC, txt, tokText, String.toList_append] at h
+    simp at h
+  | p s =>
+    simp only [tokOk, List.contains_iff_mem] at hb
+    simp only [firstC, txt, tokText] at h
+    rcases fragPuncts_bang _ hb h with h1 | h1
+    · left
+      have : s = "!" := String.toList_inj.mp (by rw [h1]; rfl)
+      rw [this]
+    · right; simpa [txt, tokText] using h1
+
+theorem pair_start (w : W) (nl : Bool) (a b : Tok) (more : List Tok) (hb : tokOk b = true)
+    (hmore : ∀ t ∈ more, tokOk t = true) (hadj : adjOk a b = true) (hh : nl = true → headOk (a :: b :: more) = true) :
+    startC nl a (render (next w a) (b :: more)) := by
+  cases a with
+  | p s =>
+    have hne : ∀ t ∈ b :: more, txt t ≠ [] := by
+      intro t ht
+      simp only [List.mem_cons] at ht
+      rcases ht with ht | ht
+      · subst ht; exact txt_ne_nil _ hb
+      · exact txt_ne_nil _ (hmore t ht)
+    have hsplit : (seps (next w (.p s)) b ≠ [] ∧ (render (next w (.p s)) (b :: more)).head? = some ' ') ∨
+        (seps (next w (.p s)) b = [] ∧
+          render (next w (.p s)) (b :: more) = txt b ++ render (next (next w (.p s)) b) more) := by
+      by_cases hs : seps (next w (.p s)) b = []
+      · right; exact ⟨hs, by simp [render, hs]⟩
+      · left; exact ⟨hs, by simp only [render]; exact seps_head _ _ hs _⟩
+    refine ⟨?_, ?_, ?_⟩
+    · -- `/` is not followed by `/` or `*`
+      intro hsl c hc
+      have hs' : s = "/" := String.toList_inj.mp (by rw [hsl]; rfl)
+      subst hs'
+      rcases hsplit with ⟨_, hsp⟩ | ⟨hs, hR⟩
+      · rw [hsp] at hc; simp at hc; subst hc; decide
+      · obtain ⟨h2, _, hspb⟩ := seps_nil _ _ hs
+        cases htb : txt b with
+        | nil => exact absurd htb (txt_ne_nil b hb)
+        | cons d rb =>
+          rw [hR, htb] at hc; simp at hc; subst hc
+          have hfc : firstC b = some d := by simp [firstC, htb]
+          refine ⟨?_, ?_⟩
+          · intro e; subst e
+            have := spB_before (next w (.p "/")) b '/' h2 rfl (by simpa [firstC] using hfc)
+            rw [this] at hspb; exact absurd hspb (by simp)
+          · simp only [adjOk, hfc, Bool.and_eq_true, Bool.or_eq_true, bne_iff_ne, ne_eq] at hadj
+            rcases hadj.1.1.2 with h | h
+            · exact absurd trivial h
+            · exact h
+    · -- `<` is not followed by `!--`
+      intro hlt
+      have hs' : s = "<" := String.toList_inj.mp (by rw [hlt]; rfl)
+      subst hs'
+      rcases hsplit with ⟨_, hsp⟩ | ⟨hs, hR⟩
+      · intro e
+        cases hq : render (next w (.p "<")) (b :: more) with
+        | nil => rw [hq] at e; simp at e
+        | cons d r => rw [hq] at hsp e; simp at hsp; subst hsp; simp at e
+      · rw [hR]
+        by_cases hc : firstC b = some '!'
+        · rcases first_bang b hb hc with hbb | hbb
+          · subst hbb
+            have hsb : (next (next w (.p "<")) (.p "!")).spaceBefore = some '-' := by
+              simp [next, txt, tokText]
+            have := render_head_ne (next (next w (.p "<")) (.p "!")) more '-' hsb (by decide)
+              (fun t ht => txt_ne_nil t (hmore t ht))
+            intro e
+            cases hq : render (next (next w (.p "<")) (.p "!")) more with
+            | nil => rw [hq] at e; simp [txt, tokText] at e
+            | cons d r =>
+              rw [hq] at this e
+              simp [txt, tokText] at e
+              exact this (by simp [e.1])
+          · intro e
+            cases htb : txt b with
+            | nil => exact absurd htb (txt_ne_nil b hb)
+            | cons d rb =>
+              cases rb with
+              | nil => rw [htb] at hbb; simp at hbb
+              | cons d2 rb2 =>
+                rw [htb] at hbb e
+                simp at hbb e
+                rw [hbb.2] at e
+                exact absurd e.2.1 (by decide)
+        · intro e
+          cases htb : txt b with
+          | nil => exact absurd htb (txt_ne_nil b hb)
+          | cons d rb =>
+            rw [htb] at e
+            simp at e
+            exact hc (by simp [firstC, htb, e.1])
+    · -- `-->` at the start of the script
+      intro hnl
+      refine ⟨?_, ?_⟩
+      · intro hmi
+        have hs' : s = "-" := String.toList_inj.mp (by rw [hmi]; rfl)
+        subst hs'
+        have := render_head_ne (next w (.p "-")) (b :: more) '-' rfl (by decide) hne
+        intro e
+        cases hq : render (next w (.p "-")) (b :: more) with
+        | nil => rw [hq] at e; simp at e
+        | cons d r => rw [hq] at this e; simp at e; exact this (by simp [e.1])
+      · intro hmm
+        have hs' : s = "--" := String.toList_inj.mp (by rw [hmm]; rfl)
+        subst hs'
+        have hho := hh hnl
+        simp only [headOk, Bool.or_eq_true, beq_iff_eq, bne_iff_ne, ne_eq] at hho
+        rcases hsplit with ⟨_, hsp⟩ | ⟨hs, hR⟩
+        · rw [hsp]; simp
+        · obtain ⟨h2, _, _⟩ := seps_nil _ _ hs
+          rcases hho with hho | hho
+          · subst hho
+            have : pre2 (next w (.p "--")) (.p ">") = true := by simp [pre2, next, txt, tokText]
+            rw [this] at h2; exact absurd h2 (by simp)
+          · rw [hR]
+            cases htb : txt b with
+            | nil => exact absurd htb (txt_ne_nil b hb)
+            | cons d rb =>
+              simp only [List.cons_append, List.head?_cons, ne_eq, Option.some.injEq]
+              intro e; subst e
+              exact hho (by simp [firstC, htb])
+  | _ => trivial
+
+
+/-! ## the writer's output lexes back to the tokens -/
+
+/-- the lexer token a writer token stands for -/
+def lexTok (nl : Bool) (t : Tok) : Token := ⟨kind t, txt t, nl⟩
+
+/-- the expected token list: only the first token is marked "at the start of a line" -/
+def lexToks (nl : Bool) : List Tok → List Token
+  | [] => []
+  | t :: ts => lexTok nl t :: lexToks false ts
+
+/-- the goal symbols the tracker of the lexer chooses along the token list agree with the tokens: every token
+    starting with `/` (division, `/=`) stands in operator position and no `}` is taken for the end of a template
+    substitution -/
+def goalsOk (σ : St) (nl : Bool) : List Tok → Bool
+  | [] => true
+  | t :: ts =>
+    ((txt t).head? != some '/' || σ.exprEnd) && (txt t != ['}'] || !tmplClose σ)
+      && goalsOk (step σ (lexTok nl t)) false ts
+
+theorem sep_core : ∀ (ts : List Tok) (w : W) (σ : St) (nl : Bool) (acc : List Token) (fuel : Nat),
+    ts.length < fuel → (∀ t ∈ ts, tokOk t = true) → adjChain ts = true → (nl = true → headOk ts = true) →
+    goalsOk σ nl ts = true →
+    lexLoop fuel σ nl (render w ts) acc = some (acc.reverse ++ lexToks nl ts) := by
+  intro ts
+  induction ts with
+  | nil =>
+    intro w σ nl acc fuel hf _ _ _ _
+    cases fuel with
+    | zero => simp at hf
+    | succ f => simp [render, lexLoop_end, lexToks]
+  | cons a rest ih =>
+    intro w σ nl acc fuel hf hok hadj hhead hgoal
+    cases fuel with
+    | zero => simp at hf
+    | succ f =>
+      have ha : tokOk a = true := hok a (by simp)
+      have hrest : ∀ t ∈ rest, tokOk t = true := fun t ht => hok t (by simp [ht])
+      simp only [goalsOk, Bool.and_eq_true, Bool.or_eq_true, bne_iff_ne, ne_eq, Bool.not_eq_true'] at hgoal
+      obtain ⟨⟨hg1, hg2⟩, hg3⟩ := hgoal
+      have hstopstart : stopC a (render (next w a) rest) ∧ startC nl a (render (next w a) rest) := by
+        cases rest with
+        | nil => exact ⟨by simpa [render] using stopC_nil a, by simpa [render] using startC_nil nl a⟩
+        | cons b more =>
+          have hb : tokOk b = true := hrest b (by simp)
+          have hadj1 : adjOk a b = true := by
+            simp only [adjChain, Bool.and_eq_true] at hadj; exact hadj.1
+          exact ⟨pair_stop w a b more ha hb hadj1,
+            pair_start w nl a b more hb (fun t ht => hrest t (by simp [ht])) hadj1 hhead⟩
+      have hscan := scan_tok (regexAllowed σ) (tmplClose σ) a (render (next w a) rest) ha hstopstart.1
+        (by
+          intro hsl
+          rcases hg1 with h | h
+          · exact absurd hsl h
+          · simp [regexAllowed, h])
+        (by
+          intro hbr
+          rcases hg2 with h | h
+          · exact absurd hbr h
+          · exact h)
+      have hstart := start_tok nl a (render (next w a) rest) ha hstopstart.2
+      have hstep := lexLoop_token f σ nl (seps w a) (txt a) (render (next w a) rest) (kind a) acc
+        (seps_spaces w a) (txt_ne_nil a ha) hstart hscan
+      have hadj' : adjChain rest = true := by
+        cases rest with
+        | nil => rfl
+        | cons b more => simp only [adjChain, Bool.and_eq_true] at hadj; exact hadj.2
+      have hih := ih (next w a) (step σ (lexTok nl a)) false (lexTok nl a :: acc) f (by simp at hf; omega)
+        hrest hadj' (by intro h; exact absurd h (by simp)) hg3
+      simp only [render]
+      rw [hstep]
+      simp only [lexTok] at hih ⊢
+      rw [hih]
+      simp [lexToks, lexTok]
+
+theorem render_length (w : W) (ts : List Tok) (hok : ∀ t ∈ ts, tokOk t = true) : ts.length ≤ (render w ts).length := by
+  induction ts generalizing w with
+  | nil => simp
+  | cons a rest ih =>
+    have h1 : 1 ≤ (txt a).length := by
+      have := txt_ne_nil a (hok a (by simp))
+      cases h : txt a with
+      | nil => exact absurd h this
+      | cons c r => simp
+    have h2 := ih (next w a) (fun t ht => hok t (by simp [ht]))
+    simp only [render, List.length_append, List.length_cons]
+    omega
+
 end Verif.Proofs.C09JsSep
